@@ -58,6 +58,20 @@ def _buffer_local(path, callee, registration):
     return None
 
 
+def _is_member(it, receiver: str) -> bool:
+    """``receiver`` is the buffer this iteration over the registry is at: the loop variable
+    of ``.values()``, the entry of the key when the keys are walked, the second item of
+    ``.items()``"""
+    if it.source == REGISTRY + '.values()':
+        return receiver == it.var
+    if it.source in (REGISTRY, REGISTRY + '.keys()'):
+        return receiver == '%s[%s]' % (REGISTRY, it.var)
+    if it.source == REGISTRY + '.items()' and isinstance(it.node.target, ast.Tuple) and \
+            len(it.node.target.elts) == 2:
+        return receiver == ast.unparse(it.node.target.elts[1])
+    return False
+
+
 def run(check, an: Analysis):
     check.rule('P', 'registration pairing: `_consumer_buffers[key] = buffer` is followed by '
                     '`del _consumer_buffers[key]` on every exit (same fresh key)')
@@ -126,9 +140,9 @@ def run(check, an: Analysis):
                        if e.kind == 'call' and isinstance(e.node, ast.Call)
                        and isinstance(e.node.func, ast.Attribute)
                        and e.node.func.attr == 'append'
-                       and ast.unparse(e.node.func.value) == it.var]
+                       and _is_member(it, rules.value_text(path, i, e.node.func.value))]
             tests = [e for _i, e in it.events() if e.kind == 'test']
-            good = it.source == REGISTRY + '.values()' and len(appends) == 1 and \
+            good = len(appends) == 1 and \
                 not tests and rules.loop_completed(path, it.node) and \
                 [rules.value_text(path, appends[0][0], a)
                  for a in appends[0][1].node.args] == [item]
